@@ -47,7 +47,7 @@ TECHNIQUE = 'runtime monitoring: structural invariants and reference typing/orde
 
 Mismatch = c05.Mismatch
 TYPE_NAME = {pbgen.INT: 'integer', pbgen.STR: 'string', pbgen.BOOL: 'boolean', pbgen.REAL: 'real',
-             pbgen.ENUM: 'Color'}
+             pbgen.ENUM: 'Color', pbgen.ENUM2: 'Mood'}
 STATEMENT_CLASSES = set(['AssignmentNode', 'InvocationStatementNode', 'ReturnNode', 'BreakNode', 'ContinueNode',
                          'ControlNode', 'CreateObjectNode', 'CreateObjectNoVariableNode', 'DeleteNode',
                          'RelateNode', 'RelateUsingNode', 'UnrelateNode', 'UnrelateUsingNode', 'SelectFromNode',
@@ -83,35 +83,46 @@ def blocks_of(tree):
 
 
 def declarations(tree):
-    '''variable name -> (declaring statement node, its statement list)'''
-    decl = {}
+    """[(name, declaring statement node)] in source order, following OAL block scoping"""
+    out = []
 
-    # walk statement lists top-down in source order
-    def lists(node):
-        for n in node.walk():
-            if n.cls == 'StatementListNode':
-                yield n
-    seen = set()
-    for sl in lists(tree):
-        if id(sl) in seen:
-            continue
-        seen.add(id(sl))
-        for s in sl.kids:
-            name = None
-            if s.cls == 'AssignmentNode':
-                t = s.kids[0]
-                while t.cls == 'IndexAccessNode':
-                    t = t.kids[0]
-                if t.cls == 'VariableAccessNode':
-                    name = t.fields['variable_name']
-            elif s.cls in ('CreateObjectNode', 'SelectFromNode', 'SelectFromWhereNode', 'SelectRelatedNode',
-                           'SelectRelatedWhereNode'):
-                name = s.fields['variable_name']
-            elif s.cls == 'ForEachNode':
-                name = s.fields['instance_variable_name']
-            if name and name not in decl:
-                decl[name] = (s, sl.kids)
-    return decl
+    def declared_name(s):
+        if s.cls == 'AssignmentNode':
+            t = s.kids[0]
+            while t.cls == 'IndexAccessNode':
+                t = t.kids[0]
+            if t.cls == 'VariableAccessNode':
+                return t.fields['variable_name']
+        elif s.cls in ('CreateObjectNode', 'SelectFromNode', 'SelectFromWhereNode', 'SelectRelatedNode',
+                       'SelectRelatedWhereNode'):
+            return s.fields['variable_name']
+        elif s.cls == 'ForEachNode':
+            return s.fields['instance_variable_name']
+        return None
+
+    def nearest_lists(node):
+        for k in node.kids:
+            if isinstance(k, om.N):
+                if k.cls == 'StatementListNode':
+                    yield k
+                else:
+                    for x in nearest_lists(k):
+                        yield x
+
+    def visit(sl, scopes):
+        scope = set()
+        scopes = scopes + [scope]
+        for st in sl.kids:
+            name = declared_name(st)
+            if name and not any(name in sc for sc in scopes):
+                scope.add(name)
+                out.append((name, st))
+            for sub in nearest_lists(st):
+                visit(sub, scopes)
+
+    for top in nearest_lists(tree):
+        visit(top, [])
+    return out
 
 
 def check(ctx, rng, home):
@@ -256,16 +267,20 @@ def check(ctx, rng, home):
                 raise Mismatch('chain/next-link', 'navigation steps following Next_Link_ID are %r, source order %r\n%s'
                                % (got, steps, text))
     # -- variable -> declaring block -------------------------------------------------
-    for name, (stmt, stmts) in declarations(tree).items():
+    by_name = {}
+    for name, stmt in declarations(tree):
+        by_name.setdefault(name, []).append(stmt)
+    for name, stmts in by_name.items():
         vvar = [v for v in m.select_many('V_VAR') if v.Name == name]
-        if len(vvar) != 1:
-            raise Mismatch('scope/variable-instances', 'variable %s has %d V_VAR instances\n%s' % (name, len(vvar), text))
-        ctx.hit('Scope.variable-block')
-        blk = one(vvar[0]).ACT_BLK[823]()
-        want = one(smt_of(stmt)).ACT_BLK[602]()
-        if blk is not want:
-            raise Mismatch('scope/variable-block', 'variable %s does not belong to the block of the statement '
-                           'that declares it (%r)\n%s' % (name, text[stmt.pos[4]:stmt.pos[5]], text))
+        if len(vvar) != len(stmts):
+            raise Mismatch('scope/variable-instances', 'the name %s is declared %d time(s) (in different blocks) '
+                           'but has %d V_VAR instances\n%s' % (name, len(stmts), len(vvar), text))
+        ctx.hit('Scope.variable-block', len(stmts))
+        have = sorted(id(one(v).ACT_BLK[823]()) for v in vvar)
+        want = sorted(id(one(smt_of(st)).ACT_BLK[602]()) for st in stmts)
+        if have != want:
+            raise Mismatch('scope/variable-block', 'variable %s does not belong to the block(s) of the statement(s) '
+                           'that declare it (%r)\n%s' % (name, [text[st.pos[4]:st.pos[5]] for st in stmts], text))
     # -- typing ---------------------------------------------------------------------------
     for n in tree.walk():
         if n.cls not in EXPRESSION_CLASSES or n.sem is None or n.pos is None:
@@ -279,7 +294,7 @@ def check(ctx, rng, home):
             kind = 'cardinality'
         elif n.cls in ('IntegerNode', 'RealNode', 'StringNode', 'BooleanNode'):
             kind = 'literal'
-        elif n.cls == 'EnumOrNamedConstantNode' and n.fields['namespace'] == 'Color':
+        elif n.cls == 'EnumOrNamedConstantNode' and n.fields['namespace'] in ('Color', 'Mood'):
             kind = 'literal'
         elif n.cls == 'VariableAccessNode':
             kind = 'selection' if isinstance(n.sem, tuple) and n.sem[0] in ('inst', 'set') else 'variable'
